@@ -227,6 +227,12 @@ func MarshalCheck(c abcitypes.ResponseCheckTx) []byte {
 	return mustMarshal(&c)
 }
 
+// CheckTxRecheck is the mempool's re-validation of a transaction it already holds (Tendermint
+// sends it after every commit).
+func (r *Replica) CheckTxRecheck(tx Tx) abcitypes.ResponseCheckTx {
+	return r.App.CheckTx(abcitypes.RequestCheckTx{Tx: tx.Bytes, Type: abcitypes.CheckTxType_Recheck})
+}
+
 func (r *Replica) CheckTx(tx Tx) abcitypes.ResponseCheckTx {
 	return r.App.CheckTx(abcitypes.RequestCheckTx{Tx: tx.Bytes})
 }
